@@ -85,14 +85,6 @@ Section OneFile.
   Variable w : bool.    (* the handle was opened for writing *)
   Variable h : N.       (* the handle *)
 
-  (* the clusters of the file: the chain from its first cluster, with a valid cursor; or none
-     at all - a file that was created empty has first cluster 0 and its cursor there *)
-  Definition chain_ok (s : st) (v : vol) (f : fileinfo) (ch : list N) : Prop :=
-    (2 <= e_cluster (f_entry f) /\
-     (exists fuel, chain_of (s_disk s) v (e_cluster (f_entry f)) fuel = Some ch) /\
-     PrRw.cursor_ok v ch (f_cur_off f, f_cur_cluster f))
-    \/ (e_cluster (f_entry f) < 2 /\ ch = [] /\ f_cur_cluster f < 2).
-
   Record file_rep (s : st) (af : afile) (fi : nat) (f : fileinfo) (vi : nat) (v : vol) (ch : list N) : Prop :=
     mk_file_rep {
     fr_res : PrSeek.resolves s h fi f;
@@ -250,6 +242,88 @@ Section OneFile.
       rewrite (lift_ok' _ _ _ _ _ (C01_file_eof s h fi f Hres)). rewrite Hlen, Haoff. reflexivity.
   Qed.
 
+  (* ================================================================ the write *)
+  Lemma file_rep_mw_pre s af fi f vi v ch : file_rep s af fi f vi v ch -> mw_pre fsz h s fi f vi v ch.
+  Proof.
+    intros [(R1 & R2 & R3) Hvol Hpre Hfit Hspc Hwf Hchain Hoff Hsize H32 Hmode Hbytes Haoff].
+    constructor; assumption.
+  Qed.
+
+  Lemma file_rep_of_post s af fi f vi v ch stamped stored s' f' v' ch' :
+    file_rep s af fi f vi v ch -> mw_post fsz h s fi f vi v ch stamped stored s' f' v' ch' ->
+    file_rep s' (spec_write (fst af) (snd af) stored, snd af + N.of_nat (length stored)) fi f' vi v' ch'.
+  Proof.
+    intros R Q. pose proof R as [_ _ _ _ _ _ _ _ _ _ Hmode Hbytes Haoff].
+    destruct Q as [[Hl Hh Hfi Hvol Hpre Hfit Hspc Hwf Hchain Hoff Hsize H32] F1 (nf & fc & ->) V2 X1 M1 B1 O1 Z1
+                   (I1 & I2 & I3 & I4) E1 C1 Fl1 Fr1 Ot1 T1].
+    constructor; try assumption.
+    - repeat split; assumption.
+    - rewrite I3. exact Hmode.
+    - cbn [fst]. rewrite Hbytes, Haoff. symmetry. exact B1.
+    - cbn [snd]. rewrite Haoff. symmetry. exact O1.
+  Qed.
+
+  (* the volume of the file has no free cluster left *)
+  Definition file_inv_full (s : st) (af : afile) : Prop :=
+    exists fi f vi v ch, file_rep s af fi f vi v ch /\ no_free (s_disk s) v.
+
+  (* ================================================================ one operation *)
+  (* Every operation returns what the model returns and re-establishes the invariant for the
+     model's new state - except that a write may run out of clusters: then it reports
+     DiskFull after storing a strict prefix of the (clipped) data, or NotEnoughSpace when the
+     file had no cluster at all and nothing is stored; the invariant then holds for that
+     partial result and the volume is full. *)
+  Theorem C01_file_step a s af : file_inv s af ->
+    exists o s', run_op (cop h a) s = (o, s') /\
+      ((o = fst (astep w a af) /\ file_inv s' (snd (astep w a af))) \/
+       (exists data, a = AWrite data /\ w = true /\
+          ((o = Err DiskFull /\ exists k, (k < length (clip_write (snd af) data))%nat /\
+              file_inv_full s' (spec_write (fst af) (snd af) (firstn k (clip_write (snd af) data)),
+                                snd af + N.of_nat k)) \/
+           (o = Err NotEnoughSpace /\ alen af = 0 /\ file_inv_full s' af)))).
+  Proof.
+    intros Hinv. destruct (is_write a) eqn:Ha.
+    2:{ destruct (C01_file_step_ro a s af Ha Hinv) as (s' & Hrun & Hinv').
+        exists (fst (astep w a af)), s'. split; [exact Hrun|]. left. split; [reflexivity|exact Hinv']. }
+    destruct a as [n|data|x|x|z| | |]; try discriminate Ha. clear Ha.
+    destruct Hinv as (fi & f & vi & v & ch & R).
+    pose proof (file_rep_len _ _ _ _ _ _ _ R) as Hlen.
+    pose proof (file_rep_mw_pre _ _ _ _ _ _ _ R) as Hmw.
+    pose proof R as [(R1 & R2 & R3) Hvol Hpre Hfit Hspc Hwf Hchain Hoff Hsize H32 Hmode Hbytes Haoff].
+    unfold run_op. cbn [cop step astep].
+    destruct w eqn:Ew; cbn [negb] in Hmode.
+    - (* opened for writing *)
+      destruct (mgr_write_spec fsz h data s fi f vi v ch Hmw Hmode)
+        as (o & s' & Hrun & [(-> & f' & v' & ch' & Q)|[(-> & f' & v' & ch' & k & Hk & Q & Hoffk & Hfull)
+                                                     |(-> & Hc0 & Hnone & Hd & Hfiles & Hvols & Htab & Hpre')]]).
+      + exists (Ok RUnit), s'. split; [exact (lift_ok' _ _ _ _ _ Hrun)|]. left. split; [reflexivity|].
+        exists fi, f', vi, v', ch'. cbn [snd]. unfold clip_write. rewrite Haoff.
+        pose proof (file_rep_of_post _ _ _ _ _ _ _ _ _ _ _ _ _ R Q) as R'. rewrite Haoff in R'. exact R'.
+      + exists (Err DiskFull), s'. split; [exact (lift_err' _ _ _ _ _ Hrun)|]. right.
+        exists data. split; [reflexivity|]. split; [reflexivity|]. left. split; [reflexivity|].
+        unfold clip_write. rewrite Haoff. exists k. split; [exact Hk|].
+        exists fi, f', vi, v', ch'. split.
+        * pose proof (file_rep_of_post _ _ _ _ _ _ _ _ _ _ _ _ _ R Q) as R'.
+          rewrite firstn_length in R'. rewrite Haoff in R'.
+          replace (N.of_nat (Nat.min k (length (firstn (N.to_nat (N.min (N.of_nat (length data))
+                     (MAX_FILE_SIZE - f_offset f))) data)))) with (N.of_nat k) in R' by (clear - Hk; lia).
+          exact R'.
+        * destruct (mp_vol _ _ _ _ _ _ _ _ _ _ _ _ _ _ Q) as (nf & fc & ->). exact Hfull.
+      + exists (Err NotEnoughSpace), s'. split; [exact (lift_err' _ _ _ _ _ Hrun)|]. right.
+        exists data. split; [reflexivity|]. split; [reflexivity|]. right. split; [reflexivity|].
+        destruct Hchain as [(A1 & _)|(_ & -> & A3)]; [clear - A1 Hc0; lia|].
+        split; [rewrite Hlen; cbn [length] in Hsize; clear - Hsize; lia|].
+        exists fi, (set_f_dirty f true), vi, v, []. split; [|rewrite Hd; exact Hnone].
+        destruct Hpre' as ((Hnf' & Hc' & _) & _).
+        destruct Htab as (T1 & T2 & T3 & T4 & T5 & T6 & T7 & T8).
+        apply (file_rep_upd s s' af af fi f _ vi v [] R); try assumption; try reflexivity;
+          intros Hx; exact Hx.
+    - (* opened ReadOnly *)
+      exists (Err ReadOnlyErr), s. split.
+      + apply lift_err'. apply (mgr_write_read_only h data s fi f vi R1 R2 R3 Hvol Hmode).
+      + left. split; [reflexivity|]. exists fi, f, vi, v, ch. exact R.
+  Qed.
+
   (* ================================================================ histories *)
   (* the results of a list of operations on the handle, and the final state *)
   Fixpoint run_ops (ops : list aop) (s : st) : list (outcome res) * st :=
@@ -265,8 +339,42 @@ Section OneFile.
                 let '(os, af2) := arun r af1 in (o :: os, af2)
     end.
 
-  (* every history of reads, seeks and queries *)
-  Theorem C01_file_history_ro : forall ops s af,
+  Definition space_err (o : outcome res) : bool :=
+    match o with Err DiskFull | Err NotEnoughSpace => true | _ => false end.
+
+  Lemma astep_no_space_err a af : space_err (fst (astep w a af)) = false.
+  Proof.
+    destruct a; cbn [astep]; try reflexivity.
+    - destruct w; reflexivity.
+    - destruct (spec_seek_start (alen af) (snd af) x); reflexivity.
+    - destruct (spec_seek_end (alen af) (snd af) x); reflexivity.
+    - destruct (spec_seek_cur (alen af) (snd af) z); reflexivity.
+  Qed.
+
+  (* C01 for one handle: for every finite sequence of reads, writes, seeks and queries on the
+     handle - as long as the volume does not run out of clusters, i.e. no call reports DiskFull
+     or NotEnoughSpace - every call returns exactly what the byte-array model returns (bytes
+     read, length, offset, end-of-file flag, InvalidOffset / ReadOnly refusals), and the
+     invariant holds at the end *)
+  Theorem C01_file_history : forall ops s af, file_inv s af ->
+    existsb space_err (fst (run_ops ops s)) = false ->
+    fst (run_ops ops s) = fst (arun ops af) /\ file_inv (snd (run_ops ops s)) (snd (arun ops af)).
+  Proof.
+    induction ops as [|a r IH]; intros s af Hinv Hsp; [split; [reflexivity|exact Hinv]|].
+    destruct (C01_file_step a s af Hinv) as (o & s1 & Hrun & Hres).
+    cbn [run_ops arun] in *. rewrite Hrun in *.
+    destruct (astep w a af) as [o' af1] eqn:Ea. cbn [fst snd] in *.
+    destruct (run_ops r s1) as [os s2] eqn:Er. cbn [fst snd existsb] in Hsp.
+    apply orb_false_iff in Hsp. destruct Hsp as [Hsp1 Hsp2].
+    destruct Hres as [(-> & Hinv1)|(data & _ & _ & [(-> & _)|(-> & _)])]; try discriminate Hsp1.
+    specialize (IH s1 af1 Hinv1). rewrite Er in IH. cbn [fst snd] in IH.
+    destruct (IH Hsp2) as (E1 & E2).
+    destruct (arun r af1) as [os' af2]. cbn [fst snd] in *.
+    split; [f_equal; exact E1|exact E2].
+  Qed.
+
+  (* without writes there is no proviso *)
+  Corollary C01_file_history_ro : forall ops s af,
     forallb (fun a => negb (is_write a)) ops = true -> file_inv s af ->
     fst (run_ops ops s) = fst (arun ops af) /\ file_inv (snd (run_ops ops s)) (snd (arun ops af)).
   Proof.
@@ -281,3 +389,33 @@ Section OneFile.
     split; [f_equal; exact E1|exact E2].
   Qed.
 End OneFile.
+
+(* ================================================================== the hypotheses are satisfiable *)
+(* PrRw's example file: 1500 bytes in clusters 2 -> 3 of the FAT16 example volume, open for
+   writing with handle 7 at offset 700 *)
+Definition exs_afile : afile := (firstn 1500 (file_bytes exd_disk exd_vol [2; 3]), 700).
+Definition exs_ops : list aop :=
+  [AWrite [1; 2; 3]; ASeekStart 700; ARead 3; AEof; ALen; ASeekEnd 0; AWrite (repeat 5 1000); AOff;
+   ASeekCur (-1000); ARead 2; ASeekStart 5000; AEof].
+
+Example file_seq_example :
+  file_inv 1 true 7 exr_state exs_afile /\
+  (* a history with in-place and extending writes, computed on both sides *)
+  fst (run_ops 7 exs_ops exr_state) = fst (arun true exs_ops exs_afile) /\
+  fst (arun true exs_ops exs_afile) =
+    [Ok RUnit; Ok RUnit; Ok (RBytes [1; 2; 3]); Ok (RBool false); Ok (RNum 1500); Ok RUnit; Ok RUnit;
+     Ok (RNum 2500); Ok RUnit; Ok (RBytes [5; 5]); Err InvalidOffset; Ok (RBool false)] /\
+  existsb space_err (fst (run_ops 7 exs_ops exr_state)) = false.
+Proof.
+  split; [|split; [vm_compute; reflexivity|split; vm_compute; reflexivity]].
+  exists 0%nat, exr_file, 0%nat, exd_vol, [2; 3].
+  destruct write_example as ([Hl Hh Hfi Hvol Hpre Hfit Hspc Hwf Hchain Hoff Hsize H32] & _ & Hmode & _).
+  constructor; try assumption; try reflexivity.
+  repeat split; assumption.
+Qed.
+
+Print Assumptions C01_file_step_ro.
+Print Assumptions C01_file_step.
+Print Assumptions C01_file_history.
+Print Assumptions C01_file_history_ro.
+Print Assumptions file_seq_example.
